@@ -27,13 +27,21 @@ Failed(r) ==
       THEN {} ELSE {"per_qubit_probabilities_are_the_relabelled_channel"})
 \cup (IF \A q \in 1..n : Normalised(ch[q]) THEN {} ELSE {"normalised_nonnegative"})
 \cup (IF \A s \in DOMAIN r.samples :
-           /\ r.samples[s].draws = n /\ r.samples[s].len = 2 * n /\ r.samples[s].binary
-      THEN {} ELSE {"sample_is_binary_bsf_of_length_2n_one_variate_per_qubit"})
-\cup (IF \A s \in DOMAIN r.samples : \A q \in 1..n :
-           r.samples[s].letters[q] = Choice(r.samples[s].js[q], ch[q])
-      THEN {} ELSE {"each_qubit_drawn_independently_from_its_channel"})
-\cup (IF \A f \in DOMAIN r.fast : r.fast[f][2] = Choice(r.fast[f][1], ch[1])
-      THEN {} ELSE {"inverse_cdf_choice"})
+           /\ r.samples[s].len = 2 * n /\ r.samples[s].binary
+      THEN {} ELSE {"sample_is_binary_bsf_of_length_2n"})
+\* every qubit saw every midpoint variate exactly once (Latin arrangement): the
+\* number of samples in which it carries a letter is that letter's numerator,
+\* whichever variate the sampler maps to which letter
+\cup (IF Len(r.samples) # D2 \/
+         \A q \in 1..n : \A s \in {"I", "X", "Y", "Z"} :
+             Cardinality({ k \in DOMAIN r.samples : r.samples[k].letters[q] = s }) = ch[q][s]
+      THEN {} ELSE {"each_qubit_drawn_from_exactly_its_channel"})
+\cup (IF Len(r.samples) # D2 \/
+         \A q \in 1..n : { r.samples[k].js[q] : k \in DOMAIN r.samples } = 0..(D2 - 1)
+      THEN {} ELSE {"every_variate_value_covered_per_qubit"})
+\cup (IF Len(r.fast) = 0 \/ \A s \in {"I", "X", "Y", "Z"} :
+           Cardinality({ f \in DOMAIN r.fast : r.fast[f][2] = s }) = ch[1][s]
+      THEN {} ELSE {"inverse_cdf_choice_has_the_channel_measure"})
 \cup (IF Len(r.fast) = 0 \/ { r.fast[f][1] : f \in DOMAIN r.fast } = 0..(D2 - 1)
       THEN {} ELSE {"every_variate_value_covered"})
 \cup (IF r.pn # 0 \/ \A s \in DOMAIN r.samples : \A q \in 1..n : r.samples[s].letters[q] = "I"
